@@ -415,7 +415,7 @@ impl Solve<TU, TE> for Succ {
 }
 pub fn succ(u: T, v: T) -> Goal<TU, TE> { Goal::dynamic(Rc::new(Succ { u, v, mode: 0 })) }
 pub fn succ_head(u: T, v: T) -> Goal<TU, TE> { Goal::dynamic(Rc::new(Succ { u, v, mode: 1 })) }
-
+%s
 const LIMIT: usize = %d;
 
 #[test]
@@ -435,7 +435,7 @@ fn body() {
         %s
     });
 %s}
-''' % (prop, name, what.replace('\n', ' '), prop, path, limit, lets, body, check)
+''' % (prop, name, what.replace('\n', ' '), prop, path, PG.HELPERS_RS, limit, lets, body, check)
 
 
 def run_templates(rep, prop, templates, tag, window=3):
